@@ -212,28 +212,105 @@ theorem C05_table_public_rows :
       m ∈ [mint, purge, shuffle, increaseMemberLimit, createMinter,
            transferNft, sendNft, approve, revoke, approveAll, revokeAll, burn] := by decide
 
+/-! ## Inversion of `effect` and of the guard (proof infrastructure) -/
+
+/-- every successful effect is the identity on the authorisation state or one of the ten hand-over effects -/
+theorem Priv.effect_inv {s : AuthState} {k : Kind} {m : MsgKind} {a : Args} {w : Bool} {s' : AuthState}
+    (h : effect s k m a w = some s') :
+    s' = s ∨
+    (∃ ck, k = .collection ck ∧ m = updateCollectionInfo ∧ s.collFrozen = false ∧
+        s' = { s with creator := a.newCreator.getD s.creator }) ∨
+    (∃ ck, k = .collection ck ∧ m = freezeCollectionInfo ∧ s' = { s with collFrozen := true }) ∨
+    (∃ ck, k = .collection ck ∧ m = transferOwnership ∧
+        s' = { s with collPending := some a.newOwner, collPendingExpiry := a.expiry }) ∨
+    (∃ ck, k = .collection ck ∧ m = acceptOwnership ∧ transferExpired s = false ∧
+        s' = { s with collOwner := s.collPending, collPending := none, collPendingExpiry := none }) ∨
+    (∃ ck, k = .collection ck ∧ m = renounceOwnership ∧
+        s' = { s with collOwner := none, collPending := none, collPendingExpiry := none }) ∨
+    (∃ wk, k = .whitelist wk ∧ m = updateAdmins ∧ s' = { s with wlAdmins := a.admins }) ∨
+    (∃ wk, k = .whitelist wk ∧ m = freeze ∧ s' = { s with wlMutable := false }) ∨
+    (k = .splits ∧ m = updateAdmin ∧ s' = { s with splitsAdmin := a.newAdmin }) ∨
+    (k = .group ∧ m = updateAdmin ∧ s' = { s with groupAdmin := a.newAdmin }) ∨
+    (k = .group ∧ m = updateMembers ∧ s' = { s with members := updMembers s.members a.add a.remove }) := by
+  unfold effect at h
+  split at h
+  · split at h
+    · cases h
+    · rename_i hf; simp at h; simp at hf; subst h; exact Or.inr (Or.inl ⟨_, rfl, rfl, hf, rfl⟩)
+  · simp at h; subst h; exact Or.inr (Or.inr (Or.inl ⟨_, rfl, rfl, rfl⟩))
+  · simp at h; subst h; exact Or.inr (Or.inr (Or.inr (Or.inl ⟨_, rfl, rfl, rfl⟩)))
+  · split at h
+    · cases h
+    · rename_i he; simp at h; simp at he; subst h
+      exact Or.inr (Or.inr (Or.inr (Or.inr (Or.inl ⟨_, rfl, rfl, he, rfl⟩))))
+  · simp at h; subst h; exact Or.inr (Or.inr (Or.inr (Or.inr (Or.inr (Or.inl ⟨_, rfl, rfl, rfl⟩)))))
+  · simp at h; subst h; exact Or.inr (Or.inr (Or.inr (Or.inr (Or.inr (Or.inr (Or.inl ⟨_, rfl, rfl, rfl⟩))))))
+  · simp at h; subst h
+    exact Or.inr (Or.inr (Or.inr (Or.inr (Or.inr (Or.inr (Or.inr (Or.inl ⟨_, rfl, rfl, rfl⟩)))))))
+  · simp at h; subst h
+    exact Or.inr (Or.inr (Or.inr (Or.inr (Or.inr (Or.inr (Or.inr (Or.inr (Or.inl ⟨rfl, rfl, rfl⟩))))))))
+  · simp at h; subst h
+    exact Or.inr (Or.inr (Or.inr (Or.inr (Or.inr (Or.inr (Or.inr (Or.inr (Or.inr (Or.inl ⟨rfl, rfl, rfl⟩)))))))))
+  · simp at h; subst h
+    exact Or.inr (Or.inr (Or.inr (Or.inr (Or.inr (Or.inr (Or.inr (Or.inr (Or.inr (Or.inr ⟨rfl, rfl, rfl⟩)))))))))
+  · split at h
+    · simp at h; exact Or.inl h.symm
+    · cases h
+
+/-- a successful `exec` passed the guard and then the effect -/
+theorem Priv.exec_inv {s : AuthState} {c : Caller} {k : Kind} {m : MsgKind} {a : Args} {w : Bool} {s' : AuthState}
+    (h : step s (.exec c k m a w) = some s') :
+    authorised s c (principal k m) = true ∧ effect s k m a w = some s' := by
+  simp only [step] at h
+  split at h
+  · cases h
+  · rename_i hg; exact ⟨by simpa using hg, h⟩
+
+theorem Priv.step'_of_none {s : AuthState} {op : Op} (h : step s op = none) : step' s op = s := by simp [step', h]
+theorem Priv.step'_of_some {s s' : AuthState} {op : Op} (h : step s op = some s') : step' s op = s' := by simp [step', h]
+
+/-- `inst` never changes the state -/
+theorem Priv.step'_inst (s : AuthState) (c : Caller) (k : Kind) (w : Bool) : step' s (.inst c k w) = s := by
+  simp only [step', step]; split
+  · rfl
+  · split <;> rfl
+
+/-- the hand-over rows of the table -/
+theorem Priv.table_handover :
+    (∀ ck ∈ CollKind.all, principal (.collection ck) updateCollectionInfo = creator ∧
+        (principal (.collection ck) acceptOwnership = pendingOwner ∨ principal (.collection ck) acceptOwnership = nobody) ∧
+        (principal (.collection ck) renounceOwnership = collMinter ∨ principal (.collection ck) renounceOwnership = nobody) ∧
+        (principal (.collection ck) transferOwnership = collMinter ∨ principal (.collection ck) transferOwnership = nobody)) ∧
+    (∀ wk ∈ WlKind.all, ∀ m ∈ [updateAdmins, freeze],
+        principal (.whitelist wk) m = wlAdminMutable ∨ principal (.whitelist wk) m = nobody) := by decide
+
 /-! ## Admin lists are final once frozen -/
 
 theorem Priv.step'_frozen (s : AuthState) (op : Op) (hf : s.wlMutable = false) :
     (step' s op).wlAdmins = s.wlAdmins ∧ (step' s op).wlMutable = false := by
   cases op with
   | tick t => simp [step', step, hf]
-  | inst c k w =>
-    simp only [step', step]; split
-    · simp [hf]
-    · split <;> simp [hf]
+  | inst c k w => rw [Priv.step'_inst]; exact ⟨rfl, hf⟩
   | sudo k m v w =>
     simp only [step', step]; split
     · simp [hf]
     · split <;> simp [hf]
   | exec c k m a w =>
-    simp only [step', step]
-    split
-    · simp [hf]
-    · rename_i hauth
-      cases k <;> cases m <;>
-        simp_all [effect, principal, wlPrincipal, authorised] <;>
-        (try split) <;> simp_all [Option.getD]
+    cases hst : step s (.exec c k m a w) with
+    | none => rw [Priv.step'_of_none hst]; exact ⟨rfl, hf⟩
+    | some s' =>
+      rw [Priv.step'_of_some hst]
+      obtain ⟨hauth, heff⟩ := Priv.exec_inv hst
+      have hwl : ∀ wk, k = .whitelist wk → m = updateAdmins ∨ m = freeze → False := by
+        intro wk hk hm; subst hk
+        have ht := Priv.table_handover.2 wk (Priv.WlKind.mem_all wk) m (by rcases hm with rfl | rfl <;> decide)
+        rcases ht with h | h <;> simp [h, authorised, hf] at hauth
+      rcases Priv.effect_inv heff with rfl | ⟨_, _, _, _, rfl⟩ | ⟨_, _, _, rfl⟩ | ⟨_, _, _, rfl⟩ | ⟨_, _, _, _, rfl⟩ |
+        ⟨_, _, _, rfl⟩ | ⟨wk, hk, hm, _⟩ | ⟨wk, hk, hm, _⟩ | ⟨_, _, rfl⟩ | ⟨_, _, rfl⟩ | ⟨_, _, rfl⟩
+      all_goals first
+        | exact ⟨rfl, hf⟩
+        | exact (hwl wk hk (Or.inl hm)).elim
+        | exact (hwl wk hk (Or.inr hm)).elim
 
 /-- "admin-list changes never once frozen": once `mutable = false`, the admin list (and the flag) is constant over ALL
 continuations — arbitrary callers (admins included), arbitrary messages on any contract, sudo, instantiate, time. -/
@@ -260,16 +337,17 @@ theorem Priv.step'_frame (s : AuthState) (op : Op) (h : op.isSudo = false) :
     (step' s op).mergeSources = s.mergeSources := by
   cases op with
   | tick t => simp [step', step]
-  | inst c k w =>
-    simp only [step', step]; split
-    · simp
-    · split <;> simp
+  | inst c k w => rw [Priv.step'_inst]; exact ⟨rfl, rfl, rfl, rfl⟩
   | sudo k m v w => simp [Op.isSudo] at h
   | exec c k m a w =>
-    simp only [step', step]
-    split
-    · simp
-    · cases k <;> cases m <;> simp [effect] <;> (try split) <;> simp [Option.getD]
+    cases hst : step s (.exec c k m a w) with
+    | none => rw [Priv.step'_of_none hst]; exact ⟨rfl, rfl, rfl, rfl⟩
+    | some s' =>
+      rw [Priv.step'_of_some hst]
+      obtain ⟨_, heff⟩ := Priv.exec_inv hst
+      rcases Priv.effect_inv heff with rfl | ⟨_, _, _, _, rfl⟩ | ⟨_, _, _, rfl⟩ | ⟨_, _, _, rfl⟩ | ⟨_, _, _, _, rfl⟩ |
+        ⟨_, _, _, rfl⟩ | ⟨_, _, _, rfl⟩ | ⟨_, _, _, rfl⟩ | ⟨_, _, rfl⟩ | ⟨_, _, rfl⟩ | ⟨_, _, rfl⟩ <;>
+      exact ⟨rfl, rfl, rfl, rfl⟩
 
 /-- "Factory parameters and minter status change only through governance (sudo), never through a user message":
 no `execute` (by anyone, of any message kind, on any contract, with any arguments, whatever its outcome) and no
@@ -318,7 +396,9 @@ theorem C05_minter_admin_constant (s : AuthState) (ops : List Op) :
           simp only [step', step]; split
           · simp
           · split <;> simp
-        | _ => simp [Op.isSudo] at hop
+        | tick t => simp [Op.isSudo] at hop
+        | inst c k w => simp [Op.isSudo] at hop
+        | exec c k m a w => simp [Op.isSudo] at hop
     have h2 := ih (step' s op)
     simp only [run, List.foldl_cons] at h2 ⊢
     exact ⟨h2.1.trans h1.1, h2.2.trans h1.2⟩
@@ -334,8 +414,8 @@ theorem C05_instantiate_contract_only (s : AuthState) (c : Caller) (k : Kind) (w
 /-! ## Hand-over: the new principal passes, the old one is rejected -/
 
 /-- collection creator hand-over (`update_collection_info{creator: b}` by the creator, info not frozen):
-afterwards `b` is the `creator` principal and `a ≠ b` no longer is — in particular (C05_reject) every creator-reserved
-message now fails for `a`, and (C05_accept) passes the guard for `b`. -/
+afterwards `b` is the `creator` principal and `a ≠ b` no longer is — every creator-reserved message now fails for the
+old creator (also on the base minter, which reads the creator live) and passes the guard for the new one. -/
 theorem C05_principal_tracks_handover_creator (s : AuthState) (old new : Caller) (k : CollKind) (args : Args) (w : Bool)
     (hold : old.addr = s.creator) (hfz : s.collFrozen = false) (hnew : args.newCreator = some new.addr)
     (hne : old.addr ≠ new.addr) :
@@ -348,15 +428,16 @@ theorem C05_principal_tracks_handover_creator (s : AuthState) (old new : Caller)
   have hs : step' s (.exec old (.collection k) updateCollectionInfo args w) = { s with creator := new.addr } := by
     have hp : principal (.collection k) updateCollectionInfo = creator := by cases k <;> rfl
     simp [step', step, hp, authorised, hold, effect, hfz, hnew]
-  simp only [hs]
+  intro s'
+  rw [show s' = _ from hs]
   refine ⟨rfl, by simp [authorised], by simp [authorised, hne], ?_, ?_, ?_, ?_⟩
   · intro m hm a2 w2
-    exact (C05_clause_collection_creator _ old k m a2 w2 hm (by simpa using hne)).1
+    exact (C05_clause_collection_creator { s with creator := new.addr } old k m a2 w2 hm hne).1
   · have hp : principal (.collection k) freezeCollectionInfo = creator := by cases k <;> rfl
     simp [step, hp, authorised, effect]
   · intro a2; simp [step, principal, minterPrincipal, MinterKind.family, authorised, effect]
   · intro a2 w2
-    exact (C05_clause_base_minter _ old mint a2 w2 (Or.inl rfl) (by simpa using hne)).1
+    exact (C05_clause_base_minter { s with creator := new.addr } old mint a2 w2 (Or.inl rfl) hne).1
 
 /-- cw_ownable hand-over of the collection's minter role: `transfer_ownership{new}` by the owner, then
 `accept_ownership` by `new` before the expiry: `new` is the `collMinter` principal, `old` is rejected on `mint` -/
@@ -376,33 +457,36 @@ theorem C05_principal_tracks_handover_owner (s : AuthState) (old new : Caller) (
   have hs1 : step' s (.exec old (.collection k) transferOwnership args w)
       = { s with collPending := some new.addr, collPendingExpiry := args.expiry } := by
     simp [step', step, hp1, authorised, hold, effect, hnew]
-  have hne' : ¬ (args.expiry.elim False fun t => t ≤ s.now) := by
+  have hexp : transferExpired { s with collPending := some new.addr, collPendingExpiry := args.expiry } = false := by
+    unfold transferExpired
     cases he : args.expiry with
     | none => simp
     | some t => have := hex t he; simp; omega
   have hs2 : step' { s with collPending := some new.addr, collPendingExpiry := args.expiry }
       (.exec new (.collection k) acceptOwnership args w)
       = { s with collOwner := some new.addr, collPending := none, collPendingExpiry := none } := by
-    cases he : args.expiry with
-    | none => simp [step', step, hp2, authorised, effect]
-    | some t =>
-      have := hex t he
-      have hlt : ¬ t ≤ s.now := by omega
-      simp [step', step, hp2, authorised, effect, hlt]
-  simp only [hs1, hs2]
+    simp [step', step, hp2, authorised, effect, hexp]
+  intro s1 s2
+  have e1 : s1 = _ := hs1
+  have e2 : s2 = { s with collOwner := some new.addr, collPending := none, collPendingExpiry := none } := by
+    show step' s1 _ = _
+    rw [e1]; exact hs2
+  rw [e2, e1]
   have hpm : principal (.collection k) mint = collMinter := by cases k <;> rfl
   refine ⟨hold, rfl, rfl, rfl, by simp [authorised], by simp [authorised, Ne.symm hne], ?_, ?_⟩
   · intro a2 w2
-    exact (C05_clause_collection_minter _ old k mint a2 w2 (Or.inl rfl) (by simp [Ne.symm hne])).1
+    exact (C05_clause_collection_minter
+      { s with collOwner := some new.addr, collPending := none, collPendingExpiry := none } old k mint a2 w2
+      (Or.inl rfl) (by simp [Ne.symm hne])).1
   · intro a2; simp [step, hpm, authorised, effect]
 
 /-- the pending owner is not yet the minter: until `accept_ownership`, `mint` still belongs to the old owner only -/
 theorem C05_pending_owner_cannot_mint (s : AuthState) (c : Caller) (k : CollKind) (a : Args) (w : Bool)
-    (hp : s.collPending = some c.addr) (ho : s.collOwner ≠ some c.addr) :
+    (_hp : s.collPending = some c.addr) (ho : s.collOwner ≠ some c.addr) :
     step s (.exec c (.collection k) mint a w) = none :=
   (C05_clause_collection_minter s c k mint a w (Or.inl rfl) ho).1
 
-/-- `renounce_ownership`: afterwards NOBODY can mint or update the trading time on the collection, for ever -/
+/-- `renounce_ownership`: afterwards NOBODY can mint, update the trading time or touch the ownership, for ever -/
 theorem C05_principal_tracks_handover_renounce (s : AuthState) (old : Caller) (k : CollKind) (args : Args) (w : Bool)
     (hk : k = .base ∨ k = .metadataOnchain) (hold : s.collOwner = some old.addr) :
     let s' := step' s (.exec old (.collection k) renounceOwnership args w)
@@ -414,7 +498,8 @@ theorem C05_principal_tracks_handover_renounce (s : AuthState) (old : Caller) (k
   have hs : step' s (.exec old (.collection k) renounceOwnership args w)
       = { s with collOwner := none, collPending := none, collPendingExpiry := none } := by
     simp [step', step, hp, authorised, hold, effect]
-  simp only [hs]
+  intro s'
+  rw [show s' = _ from hs]
   refine ⟨rfl, rfl, ?_⟩
   intro c m a2 w2 hm
   rcases hk with rfl | rfl <;> rcases hm with rfl | rfl | rfl | rfl | rfl <;>
@@ -433,10 +518,11 @@ theorem C05_principal_tracks_handover_wl_admins (s : AuthState) (old : Caller) (
   have hp : principal (.whitelist k) updateAdmins = wlAdminMutable := by cases k <;> first | rfl | contradiction
   have hs : step' s (.exec old (.whitelist k) updateAdmins args w) = { s with wlAdmins := args.admins } := by
     simp [step', step, hp, authorised, hold, hm, effect]
-  simp only [hs]
+  intro s'
+  rw [show s' = _ from hs]
   refine ⟨rfl, fun c => by simp [authorised], ?_, ?_⟩
   · intro hnot m hmm a2 w2
-    exact (C05_clause_whitelist_admin _ old k m a2 w2 hmm (by simpa using hnot)).1
+    exact (C05_clause_whitelist_admin { s with wlAdmins := args.admins } old k m a2 w2 hmm hnot).1
   · intro c hc a2
     simp [step, hp, authorised, hc, hm, effect]
 
@@ -450,13 +536,15 @@ theorem C05_principal_tracks_handover_splits_admin (s : AuthState) (old new : Ca
     (∀ a2 w2, step s' (.exec old .splits updateAdmin a2 w2) = none) := by
   have hs : step' s (.exec old .splits updateAdmin args w) = { s with splitsAdmin := some new.addr } := by
     simp [step', step, principal, authorised, hold, effect, hnew]
-  simp only [hs]
+  intro s'
+  rw [show s' = _ from hs]
   refine ⟨rfl, ?_, ?_, ?_⟩
   · intro a2; simp [step, principal, authorised, effect]
   · intro a2 w2
-    exact (C05_clause_splits _ old a2 w2 (Or.inl ⟨new.addr, rfl, Ne.symm hne⟩)).1
+    exact (C05_clause_splits { s with splitsAdmin := some new.addr } old a2 w2
+      (Or.inl ⟨new.addr, rfl, Ne.symm hne⟩)).1
   · intro a2 w2
-    exact (C05_clause_splits_admin _ old a2 w2 (by simp [Ne.symm hne])).1
+    exact (C05_clause_splits_admin { s with splitsAdmin := some new.addr } old a2 w2 (by simp [Ne.symm hne])).1
 
 /-- splits admin removed (`update_admin{None}`): exactly the cw4 group members may distribute — the old admin only if
 it is a member — and the admin can never be set again -/
@@ -469,13 +557,14 @@ theorem C05_principal_tracks_handover_splits_members (s : AuthState) (old : Call
     (∀ (c : Caller) a2 w2, step s' (.exec c .splits updateAdmin a2 w2) = none) := by
   have hs : step' s (.exec old .splits updateAdmin args w) = { s with splitsAdmin := none } := by
     simp [step', step, principal, authorised, hold, effect, hnew]
-  simp only [hs]
+  intro s'
+  rw [show s' = _ from hs]
   refine ⟨rfl, ?_, ?_, ?_⟩
   · intro c hc a2; simp [step, principal, authorised, effect, hc]
   · intro c hc a2 w2
-    exact (C05_clause_splits _ c a2 w2 (Or.inr ⟨rfl, hc⟩)).1
+    exact (C05_clause_splits { s with splitsAdmin := none } c a2 w2 (Or.inr ⟨rfl, hc⟩)).1
   · intro c a2 w2
-    exact (C05_clause_splits_admin _ c a2 w2 (by simp)).1
+    exact (C05_clause_splits_admin { s with splitsAdmin := none } c a2 w2 (by simp)).1
 
 /-- group membership hand-over (cw4 `update_members` by the group admin) while the splits admin is unset:
 a removed member is rejected, an added one passes -/
@@ -487,10 +576,12 @@ theorem C05_principal_tracks_handover_group (s : AuthState) (ga c : Caller) (arg
   have hs : step' s (.exec ga .group updateMembers args w)
       = { s with members := updMembers s.members args.add args.remove } := by
     simp [step', step, principal, authorised, hga, effect]
-  simp only [hs]
+  intro s'
+  rw [show s' = _ from hs]
   refine ⟨?_, ?_⟩
   · intro hr a2 w2
-    refine (C05_clause_splits _ c a2 w2 (Or.inr ⟨hsa, ?_⟩)).1
+    refine (C05_clause_splits { s with members := updMembers s.members args.add args.remove } c a2 w2
+      (Or.inr ⟨hsa, ?_⟩)).1
     simp [updMembers, hr]
   · intro ha hr a2
     have hmem : c.addr ∈ updMembers s.members args.add args.remove := by
@@ -500,6 +591,45 @@ theorem C05_principal_tracks_handover_group (s : AuthState) (ga c : Caller) (arg
       · exact Or.inl h
       · exact Or.inr ⟨ha, by simpa using h⟩
     simp [step, principal, authorised, hsa, effect, hmem]
+
+/-- Summary over the four hand-over mechanisms, in terms of the guard alone: after a successful hand-over from `old`
+to `new ≠ old`, `new` satisfies the principal class and `old` no longer does (so, by `C05_reject`, every message of
+that class now fails for `old`; the detailed per-message consequences are the theorems above). -/
+theorem C05_principal_tracks_handover (s : AuthState) (old new : Caller) (hne : old.addr ≠ new.addr) (w : Bool) :
+    (∀ k, old.addr = s.creator → s.collFrozen = false →
+      let s' := step' s (.exec old (.collection k) updateCollectionInfo { newCreator := some new.addr } w)
+      authorised s' new creator = true ∧ authorised s' old creator = false) ∧
+    (∀ k, k = CollKind.base ∨ k = CollKind.metadataOnchain → s.collOwner = some old.addr →
+      let a : Args := { newOwner := new.addr }
+      let s2 := step' (step' s (.exec old (.collection k) transferOwnership a w)) (.exec new (.collection k) acceptOwnership a w)
+      authorised s2 new collMinter = true ∧ authorised s2 old collMinter = false) ∧
+    (∀ k, k ≠ WlKind.immutable → old.addr ∈ s.wlAdmins → s.wlMutable = true →
+      let s' := step' s (.exec old (.whitelist k) updateAdmins { admins := [new.addr] } w)
+      authorised s' new wlAdmin = true ∧ authorised s' old wlAdmin = false) ∧
+    (s.splitsAdmin = some old.addr →
+      let s' := step' s (.exec old .splits updateAdmin { newAdmin := some new.addr } w)
+      authorised s' new splitsAdminElseMember = true ∧ authorised s' old splitsAdminElseMember = false ∧
+      authorised s' new splitsAdmin = true ∧ authorised s' old splitsAdmin = false) := by
+  refine ⟨?_, ?_, ?_, ?_⟩
+  · intro k hold hfz
+    have h := C05_principal_tracks_handover_creator s old new k { newCreator := some new.addr } w hold hfz rfl hne
+    exact ⟨h.2.1, h.2.2.1⟩
+  · intro k hk hold
+    have h := C05_principal_tracks_handover_owner s old new k { newOwner := new.addr } w hk hold rfl
+      (fun t ht => by simp at ht) hne
+    exact ⟨h.2.2.2.2.1, h.2.2.2.2.2.1⟩
+  · intro k hk hold hm
+    have h := C05_principal_tracks_handover_wl_admins s old k { admins := [new.addr] } w hk hold hm
+    refine ⟨(h.2.1 new).2 (by simp), ?_⟩
+    have hn : ¬ authorised (step' s (.exec old (.whitelist k) updateAdmins { admins := [new.addr] } w)) old wlAdmin = true := by
+      intro hc; have := (h.2.1 old).1 hc; simp at this; exact hne this
+    simpa using hn
+  · intro hold
+    have hs : step' s (.exec old .splits updateAdmin { newAdmin := some new.addr } w) = { s with splitsAdmin := some new.addr } := by
+      simp [step', step, principal, authorised, hold, effect]
+    intro s'
+    rw [show s' = _ from hs]
+    simp [authorised, Ne.symm hne]
 
 /-! ## A principal only ever changes at the hands of the principal -/
 
@@ -517,12 +647,7 @@ theorem C05_change_needs_principal (s : AuthState) (op : Op) :
         ∃ c a w, op = .exec c .splits updateAdmin a w ∧ s.splitsAdmin = some c.addr) := by
   cases op with
   | tick t => simp [step', step]
-  | inst c k w =>
-    have : step' s (.inst c k w) = s := by
-      simp only [step', step]; split
-      · rfl
-      · split <;> rfl
-    simp [this]
+  | inst c k w => simp [Priv.step'_inst]
   | sudo k m v w =>
     have h : (step' s (.sudo k m v w)).creator = s.creator ∧ (step' s (.sudo k m v w)).collOwner = s.collOwner ∧
         (step' s (.sudo k m v w)).wlAdmins = s.wlAdmins ∧ (step' s (.sudo k m v w)).wlMutable = s.wlMutable ∧
@@ -532,12 +657,47 @@ theorem C05_change_needs_principal (s : AuthState) (op : Op) :
       · split <;> simp
     simp [h.1, h.2.1, h.2.2.1, h.2.2.2.1, h.2.2.2.2]
   | exec c k m a w =>
-    by_cases hauth : authorised s c (principal k m) = true
-    · cases k <;> cases m <;>
-        simp_all [step', step, effect, principal, collPrincipal, wlPrincipal, minterPrincipal, authorised] <;>
-        (try split) <;> simp_all [Option.getD] <;> (try split at hauth) <;> simp_all
-    · have : step' s (.exec c k m a w) = s := by simp [step', step, hauth]
-      simp [this]
+    cases hst : step s (.exec c k m a w) with
+    | none => simp [Priv.step'_of_none hst]
+    | some s' =>
+      rw [Priv.step'_of_some hst]
+      obtain ⟨hauth, heff⟩ := Priv.exec_inv hst
+      rcases Priv.effect_inv heff with rfl | ⟨ck, rfl, rfl, _, rfl⟩ | ⟨ck, rfl, rfl, rfl⟩ | ⟨ck, rfl, rfl, rfl⟩ |
+        ⟨ck, rfl, rfl, _, rfl⟩ | ⟨ck, rfl, rfl, rfl⟩ | ⟨wk, rfl, rfl, rfl⟩ | ⟨wk, rfl, rfl, rfl⟩ | ⟨rfl, rfl, rfl⟩ |
+        ⟨rfl, rfl, rfl⟩ | ⟨rfl, rfl, rfl⟩
+      · simp
+      · -- update_collection_info: sent by the creator
+        have hp := (Priv.table_handover.1 ck (Priv.CollKind.mem_all ck)).1
+        rw [hp] at hauth
+        have hc : c.addr = s.creator := by simpa [authorised] using hauth
+        refine ⟨fun _ => ⟨c, ck, a, w, rfl, hc⟩, by simp, by simp, by simp⟩
+      · simp
+      · simp
+      · -- accept_ownership: sent by the pending owner
+        have hp := (Priv.table_handover.1 ck (Priv.CollKind.mem_all ck)).2.1
+        have hc : s.collPending = some c.addr := by
+          rcases hp with h | h <;> simp [h, authorised] at hauth; exact hauth
+        refine ⟨by simp, fun _ => ⟨c, ck, a, w, Or.inl ⟨rfl, hc⟩⟩, by simp, by simp⟩
+      · -- renounce_ownership: sent by the owner
+        have hp := (Priv.table_handover.1 ck (Priv.CollKind.mem_all ck)).2.2.1
+        have hc : s.collOwner = some c.addr := by
+          rcases hp with h | h <;> simp [h, authorised] at hauth; exact hauth
+        refine ⟨by simp, fun _ => ⟨c, ck, a, w, Or.inr ⟨rfl, hc⟩⟩, by simp, by simp⟩
+      · -- update_admins: sent by an admin while mutable
+        have hp := Priv.table_handover.2 wk (Priv.WlKind.mem_all wk) updateAdmins (by decide)
+        have hc : s.wlMutable = true ∧ c.addr ∈ s.wlAdmins := by
+          rcases hp with h | h <;> simp [h, authorised] at hauth; exact hauth
+        refine ⟨by simp, by simp, fun _ => ⟨c, wk, _, a, w, rfl, hc.2, hc.1⟩, by simp⟩
+      · -- freeze: sent by an admin while mutable
+        have hp := Priv.table_handover.2 wk (Priv.WlKind.mem_all wk) freeze (by decide)
+        have hc : s.wlMutable = true ∧ c.addr ∈ s.wlAdmins := by
+          rcases hp with h | h <;> simp [h, authorised] at hauth; exact hauth
+        refine ⟨by simp, by simp, fun _ => ⟨c, wk, _, a, w, rfl, hc.2, hc.1⟩, by simp⟩
+      · -- splits update_admin: sent by the splits admin
+        have hc : s.splitsAdmin = some c.addr := by simpa [principal, authorised] using hauth
+        refine ⟨by simp, by simp, by simp, fun _ => ⟨c, a, w, rfl, hc⟩⟩
+      · simp
+      · simp
 
 /-! ## Non-vacuity: concrete states satisfying the hypotheses above -/
 
